@@ -115,7 +115,7 @@ fn backend<B: Backend, P: Prims>(opts: &Opts, rep: &mut Report) {
             rep.case("v1.pem-vs-der", fnv(der), true);
         }
     }
-    // id strings of every decoded length 0..70: exactly 33 bytes are accepted
+    // over-long id strings whose appended tail is derived from the id itself (its last/first 1..8 characters, fillers followed by its last block, the id twice) offered to FromStr and serde and required to be rejected; id strings of every decoded length 0..70: exactly 33 bytes are accepted
     for len in 0..=70usize {
         for (kind, which) in [("lid", 0), ("pid", 1), ("sid", 2)] {
             idx += 1;
@@ -135,6 +135,65 @@ fn backend<B: Backend, P: Prims>(opts: &Opts, rep: &mut Report) {
                 _ => rep.violation(&format!("C13|{}|{kind}|id-length:{}", B::NAME, if ok.is_ok() { "accepted" } else { "rejected" }), json!({"input": s, "decoded_len": len})),
             }
             rep.case(&format!("{}.id-length-grid", B::NAME), fnv(s.as_bytes()), true);
+        }
+    }
+    // over-long id strings whose tail is derived from the id itself: only the 44 characters are an id
+    for round in 0..opts.size(40, 400) as u64 {
+        for (kind, which) in [("lid", 0), ("pid", 1), ("sid", 2)] {
+            idx += 1;
+            if !opts.mine(idx) {
+                continue;
+            }
+            let mut rng = Rng::derive(opts.seed, &stream, idx);
+            let body: [u8; 33] = if round == 0 { [0u8; 33] } else if round == 1 { [0xff; 33] } else { rng.arr() };
+            let b = crate::b64::encode(&body);
+            let n = b.len();
+            let mut tails: Vec<String> = vec![];
+            for k in 1..=8usize {
+                tails.push(b[n - k..].to_string());
+                tails.push(b[..k].to_string());
+                tails.push(b[n - 4..n - 4 + k.min(4)].to_string());
+            }
+            for filler in ["!!!!", "....", " \n\t ", "AAAA", "====", "-_-_", "!!!!!!!!"] {
+                tails.push(format!("{filler}{}", &b[n - 4..]));
+                tails.push(format!("{filler}{}", &b[n - 4..n - 2]));
+                tails.push(format!("{filler}{}", &b[n - 4..n - 1]));
+                tails.push(filler.to_string());
+            }
+            tails.push(b.clone());
+            tails.push(format!("k{}.{kind}.{b}", B::VER));
+            for t in tails {
+                let s = format!("k{}.{kind}.{b}{t}", B::VER);
+                let parse = |s: &str| match which {
+                    0 => s.parse::<KeyId<B, Local>>().is_ok(),
+                    1 => s.parse::<KeyId<B, Public>>().is_ok(),
+                    _ => s.parse::<KeyId<B, Secret>>().is_ok(),
+                };
+                let via_serde = |s: &str| {
+                    let j = serde_json::to_string(s).unwrap();
+                    match which {
+                        0 => serde_json::from_str::<KeyId<B, Local>>(&j).is_ok(),
+                        1 => serde_json::from_str::<KeyId<B, Public>>(&j).is_ok(),
+                        _ => serde_json::from_str::<KeyId<B, Secret>>(&j).is_ok(),
+                    }
+                };
+                match guard(|| (parse(&s), via_serde(&s))) {
+                    Ok((false, false)) => {}
+                    Ok((a, b2)) => rep.violation(&format!("C13|{}|{kind}|over-long-id-accepted", B::NAME), json!({"input": s, "id_part": b, "appended": t, "from_str_accepts": a, "serde_accepts": b2})),
+                    Err(pn) => rep.violation(&format!("C13|{}|{kind}|id-parse-panic", B::NAME), json!({"input": s, "panic": pn})),
+                }
+                rep.case(&format!("{}.id-self-extension", B::NAME), fnv(s.as_bytes()), true);
+            }
+            // positive control: the 44 characters alone are accepted
+            let s = format!("k{}.{kind}.{b}", B::VER);
+            let ok = match which {
+                0 => s.parse::<KeyId<B, Local>>().is_ok(),
+                1 => s.parse::<KeyId<B, Public>>().is_ok(),
+                _ => s.parse::<KeyId<B, Secret>>().is_ok(),
+            };
+            if !ok {
+                rep.violation(&format!("C13|{}|{kind}|33-byte-id-rejected", B::NAME), json!({"input": s}));
+            }
         }
     }
     // Eq / Ord / Hash agree with the 33 bytes
